@@ -141,6 +141,13 @@ def hand_enums(meta):
     exec(EXOTIC_SRC, ns)
     out.append(("WithLabel", ns["WithLabel"], {0: "STAND", 1: "CHAIR", 2: "FLOOR"}))
     out.append(("WithMethods", ns["WithMethods"], {1: "Low", 5: "High"}))
+    # declarations through the functional API of a member-less base (the branch of the metaclass call that
+    # takes names): ordinals are start + position (start defaults to 1), or the values given
+    out.append(("Func0", ns["Func0"], {0: "A", 1: "B", 2: "C"}))
+    out.append(("Func1", ns["Func1"], {1: "X", 2: "Y", 3: "Z"}))
+    out.append(("Func5", ns["Func5"], {5: "P", 6: "Q"}))
+    out.append(("FuncDict", ns["FuncDict"], {0: "Lo", 9: "Hi"}))
+    out.append(("FuncPairs", ns["FuncPairs"], {3: "M", 4: "N"}))
     return out
 
 
@@ -171,6 +178,17 @@ class WithMethods(IntEnum, metaclass=meta):
 
     def describe(self):
         return "%s=%d" % (self.name, self)
+
+
+class FuncBase(IntEnum, metaclass=meta):
+    pass
+
+
+Func0 = FuncBase("Func0", ["A", "B", "C"], start=0)
+Func1 = FuncBase("Func1", "X Y Z")
+Func5 = FuncBase("Func5", ["P", "Q"], start=5, module="somewhere", qualname="Outer.Func5")
+FuncDict = FuncBase("FuncDict", {"Lo": 0, "Hi": 9})
+FuncPairs = FuncBase("FuncPairs", [("M", 3), ("N", 4)], type=None)
 '''
 
 
